@@ -243,5 +243,5 @@ SUBCHECKS = [
         "log-uniform up to x_v=3000 (half of the cases x_v<=8), aspect 0.3-3 (cylinders 0.5-2), absorbing/unphysical indices, detector azimuths "
         "exactly 0/pi/2/pi/3pi/2/2pi-by-rounding; outcome classes finite / Python exception / process died; only the "
         "last (or non-finite without exception) is a violation; non-trivial = angle out of range or x_v > 60",
-        isolate=True, tolerances={}),
+        isolate=True, tolerances={}, budget_quick=50),
 ]
